@@ -5,5 +5,5 @@ THEOREMS = []
 TRUSTED = []
 ASSUMPTIONS = []
 LEVEL_TEXT = 'Lean theorems: each function-object eval computes its operator for every alias pattern; expression evaluation strategy equals evaluation into temporaries (induction over trees). Generated C++ programs (all trees to depth 2, sampled deeper) compiled against mpirxx.h and compared with the Lean evaluation.'
-LEVEL_NOTE = "mpf extraction grammar, hex/octal mpf output, auto-detect and mpq stream round trips and constructor/comparison temporaries are compared by the run only; mixed-type compound assignment is a known finding."
+LEVEL_NOTE = "Constructor/comparison temporaries at get_prec(), accessor sub-expressions and the digit request behind mpf stream output are compared by the run only; libstdc++ stream semantics are trusted; mixed-type compound assignment is a known finding."
 PLACEHOLDER = True
